@@ -107,6 +107,11 @@ pub fn m3(shard: usize, f: Sink) {
 pub const M4_SHARDS: usize = 4096;
 
 pub fn m4(shard: usize, f: Sink) {
+    m4_x(shard, None, f)
+}
+
+/// the part of an M4 shard whose lower extra man stands on square `only_x` (all of it for None)
+pub fn m4_x(shard: usize, only_x: Option<usize>, f: Sink) {
     let wk = shard / 64;
     let bk = shard % 64;
     if wk == bk {
@@ -122,7 +127,7 @@ pub fn m4(shard: usize, f: Sink) {
         p.b[wk] = K;
         p.b[bk] = K | BLACK;
         for x in 0..64 {
-            if x == wk || x == bk {
+            if x == wk || x == bk || only_x.map_or(false, |o| o != x) {
                 continue;
             }
             for &c in &MEN {
@@ -559,8 +564,13 @@ pub const KING_PLACEMENTS: [(usize, usize); 6] =
 pub const SANAMB_SHARDS: usize = 64;
 
 pub fn sanamb(shard: usize, npieces: usize, with_pinner: bool, f: Sink) {
+    sanamb_k(shard, npieces, with_pinner, KING_PLACEMENTS.len(), f)
+}
+
+/// `nk`: how many of the six king placements to use
+pub fn sanamb_k(shard: usize, npieces: usize, with_pinner: bool, nk: usize, f: Sink) {
     let s0 = shard;
-    for &(wk, bk) in &KING_PLACEMENTS {
+    for &(wk, bk) in &KING_PLACEMENTS[..nk] {
         for stm in 0..2u8 {
             let own = stm;
             let opp = 1 - stm;
